@@ -249,7 +249,7 @@ func main() {
 
 	// native replay of counterexamples and witnesses
 	known := loadKnown(filepath.Join(*verif, "known_findings.json"))
-	rp := &Replayer{repo: *repo, verif: *verif, scratch: scratch, ovFiles: ovFiles, files: files}
+	rp := &Replayer{repo: *repo, verif: *verif, scratch: scratch, ovFiles: ovFiles, files: files, race: *prop == "C20"}
 	confirmed, unconfirmed, witnessesOK, witnessBad := 0, 0, 0, 0
 	exit := 0
 	var vioOut []map[string]interface{}
